@@ -27,13 +27,14 @@ class Monitor:
     Its own state is protected by one lock and it never calls back into rex.
     """
 
-    def __init__(self, seed=0, p_sleep=0.0, max_sleep=0.004, slow_owner=None, slow_factor=10.0):
+    def __init__(self, seed=0, p_sleep=0.0, max_sleep=0.004, slow_owner=None, slow_factor=10.0, user_sleep=None):
         self.lock = threading.Lock()
         self.rnd = random.Random(seed)
         self.p_sleep = p_sleep
         self.max_sleep = max_sleep
         self.slow_owner = slow_owner
         self.slow_factor = slow_factor
+        self.user_sleep = user_sleep  # (p, max_s): pauses of the *user* thread at submit points (e.g. inside start())
         self.count = 0
         self.counts = {}
         self.order = []  # first 300 task_start events (owner, fn)
@@ -72,6 +73,9 @@ class Monitor:
                     sleep = self.rnd.uniform(0, self.max_sleep)
                 if self.slow_owner is not None and ctx.get("owner") == self.slow_owner and name == "task_start":
                     sleep = max(sleep, self.rnd.uniform(0, self.max_sleep) * self.slow_factor)
+            if self.user_sleep and name == "submit" and threading.current_thread().name in ("rexmon-user", "MainThread"):
+                if self.rnd.random() < self.user_sleep[0]:
+                    sleep = max(sleep, self.rnd.uniform(0, self.user_sleep[1]))
             g = self.gates.get(name)
             if g is not None and g["armed"]:
                 gate = g
@@ -256,3 +260,41 @@ def call_with_deadline(fn, seconds, *args, **kwargs):
     if "err" in box:
         raise box["err"]
     return box["res"]
+
+
+class LineYield:
+    """Source-free perturbation (thorough tiers): sys.monitoring LINE events restricted to rex/asynchronous.py inject
+    sleep(0) yields at seeded statement starts, to reach interleavings inside tasks."""
+
+    def __init__(self, seed=0, p=0.05):
+        import rex.asynchronous as ra
+
+        self.mon = sys.monitoring
+        self.tool = self.mon.PROFILER_ID
+        self.rnd = random.Random(seed)
+        self.p = p
+        self.lock = threading.Lock()
+        self.lines = 0
+        self.yields = 0
+        self.target = ra.__file__
+
+    def _on_line(self, code, lineno):
+        if code.co_filename != self.target:
+            return self.mon.DISABLE
+        with self.lock:
+            self.lines += 1
+            y = self.rnd.random() < self.p
+        if y:
+            self.yields += 1
+            time.sleep(0)
+
+    def __enter__(self):
+        self.mon.use_tool_id(self.tool, "rexmon-yield")
+        self.mon.register_callback(self.tool, self.mon.events.LINE, self._on_line)
+        self.mon.set_events(self.tool, self.mon.events.LINE)
+        return self
+
+    def __exit__(self, *a):
+        self.mon.set_events(self.tool, 0)
+        self.mon.register_callback(self.tool, self.mon.events.LINE, None)
+        self.mon.free_tool_id(self.tool)
